@@ -92,10 +92,15 @@ def run_program(prog, scheduler='default', policy='random', seed=0, ops=None, du
             w.CONF.set_override('max_missed_heartbeats', c20.get('missed', 2), grp)
             w.CONF.set_override('check_interval', c20.get('interval', 2), grp)
             w.CONF.set_override('execution_integrity_check_delay', c20.get('integrity', 3), 'engine')
+            if c20.get('batch'):
+                w.CONF.set_override('batch_size', c20['batch'], grp)
+            if c20.get('broken'):
+                w.insert_orphan_actions(c20['broken'])
+            meta['hbBatch'] = int(c20.get('batch', 0) or 0)
             w.withhold = set(c20.get('silent', [])) | set(c20.get('slow', []))
             c20['ticks_left'] = c20.get('ticks', 8)
             c20['dropped'] = not c20.get('drop')
-            meta['c20'] = {k: v for k, v in c20.items() if k in ('silent', 'slow', 'first', 'missed', 'interval', 'integrity', 'drop')}
+            meta['c20'] = {k: v for k, v in c20.items() if k in ('silent', 'slow', 'first', 'missed', 'interval', 'integrity', 'drop', 'batch', 'broken')}
             meta['hbThreshold'] = c20.get('missed', 2) * c20.get('interval', 2)
         ns = prog.flags.get('ns', '')
         if ns and prog.subs:
@@ -153,8 +158,13 @@ def run_program(prog, scheduler='default', policy='random', seed=0, ops=None, du
         dup_budget = dups
         delivered_msgs = []
         ops = list(ops or [])
+        abstract_ = prog.abstract() if any(o_.get('when') for o_ in ops) else None
         while n < max_steps:
             # operator commands scheduled at this step index
+            for k_, o_ in enumerate(ops):
+                if o_.get('when') and _when(o_['when'], obs, abstract_):
+                    ops[k_] = dict({kk: v for kk, v in o_.items() if kk != 'when'}, at=n)
+                    break
             fired = [o for o in ops if o.get('at', 10 ** 9) <= n]
             if fired:
                 o = fired[0]
@@ -231,7 +241,11 @@ def run_program(prog, scheduler='default', policy='random', seed=0, ops=None, du
             if nd is None:
                 steps[-1]['obs']['pend']['quiet'] = True
                 break
-            if last_idle_hash == h or ticks >= 12:
+            # (a task that is RUNNING although all its children have finished is the integrity check's business: that job re-arms
+            #  itself every 120 s and acts only when the children have been finished for longer than the configured delay -
+            #  one pass without effect is not yet "at rest")
+            waiting_for_integrity = bool(c20) and ticks < 6 and _stuck_candidate(obs)
+            if (last_idle_hash == h and not waiting_for_integrity) or ticks >= 12:
                 steps[-1]['obs']['pend']['quiet'] = (last_idle_hash == h)
                 break
             last_idle_hash = h
@@ -242,11 +256,52 @@ def run_program(prog, scheduler='default', policy='random', seed=0, ops=None, du
         meta['action_runs'] = list(w.action_runs)
     finally:
         if c20:
-            for o_ in ('first_heartbeat_timeout', 'max_missed_heartbeats', 'check_interval'):
+            for o_ in ('first_heartbeat_timeout', 'max_missed_heartbeats', 'check_interval', 'batch_size'):
                 w.CONF.clear_override(o_, 'action_heartbeat')
             w.CONF.clear_override('execution_integrity_check_delay', 'engine')
         w.close()
     return dict(prog=prog.abstract(), steps=steps, meta=meta, declared=declared or declared_errors())
+
+
+def _stuck_candidate(obs):
+    fin = ('SUCCESS', 'ERROR', 'CANCELLED')
+    for x in obs['tk']:
+        if x['state'] == 'RUNNING':
+            kids = [a for a in obs['ax'] if a['task'] == x['sid']] + [w for w in obs['wf'] if w['parent'] == x['sid']]
+            if kids and all(k['state'] in fin for k in kids):
+                return True
+    return False
+
+
+def _sub_failed_parent_running(obs):
+    """Tasks in ERROR inside a sub-workflow that has failed and has already failed its parent task, while the workflow
+    around that parent task is still RUNNING (another branch of it is unfinished)."""
+    wfs = {x['sid']: x for x in obs['wf']}
+    tks = {x['sid']: x for x in obs['tk']}
+    out = []
+    for t in obs['tk']:
+        w_ = wfs.get(t['wf'])
+        if t['state'] != 'ERROR' or not w_ or not w_['parent'] or w_['state'] != 'ERROR':
+            continue
+        pt = tks.get(w_['parent'])
+        if pt and pt['state'] == 'ERROR' and wfs.get(pt['wf'], {}).get('state') == 'RUNNING':
+            out.append(t)
+    return out
+
+
+def _when(cond, obs, abstract_=None):
+    if cond == 'sub_failed_parent_running':
+        return bool(_sub_failed_parent_running(obs))
+    if cond == 'join_ready_not_started':
+        # a join of the root workflow is WAITING although every inbound task has completed: its refresh job is still to run
+        done = {x['name'] for x in obs['tk'] if x['wf'] == 'r' and x['state'] in ('SUCCESS', 'ERROR', 'CANCELLED')}
+        for x in obs['tk']:
+            if x['wf'] == 'r' and x['state'] == 'WAITING' and x['isJoin']:
+                inb = (abstract_ or {}).get('inbound', {}).get(x['name'], [])
+                if inb and all(i in done for i in inb) and obs['pend']['jobsDue'] + obs['pend']['running'] > 0:
+                    return True
+        return False
+    return False
 
 
 def _op_step(o, w, ids, root_id, obs):
@@ -275,7 +330,7 @@ def _op_step(o, w, ids, root_id, obs):
     if op in ('rerun', 'skip'):
         # target: a task sid, or '*' = the first task in ERROR
         cands = [t for t in obs['tk'] if t['state'] == 'ERROR'] if o.get('target', '*') == '*' else \
-            [t for t in obs['tk'] if t['sid'] == o['target']]
+            _sub_failed_parent_running(obs) if o['target'] == '*sub' else [t for t in obs['tk'] if t['sid'] == o['target']]
         if not cands:
             return None
         tid = ids['tk'].get(cands[o.get('pick', 0) % len(cands)]['sid'])
@@ -288,7 +343,7 @@ def label_ev(ev, ids):
     validation knows WHICH message / job the step consumed and stays linear in the length of the run."""
     import json as _json
     a = ev.get('args')
-    t, k, fr = '', 0, True
+    t, k, fr, li = '', 0, True, 0
 
     def val(x):
         if isinstance(x, str):
@@ -308,11 +363,16 @@ def label_ev(ev, ids):
                 t = sid.rsplit('@', 1)[0].split('/')[-1].split('#')[0]
                 try:
                     k = int(sid.rsplit('.', 1)[1]) + 1
+                    li = int(sid.rsplit('@', 1)[1].split('.')[0])
                 except ValueError:
                     k = 0
     elif ev.get('kind') in ('job', 'linv') and str(ev.get('key') or '').startswith('th_r_t_s-'):
         t = ids['tk_rev'].get(ev['key'][len('th_r_t_s-'):], '').split('/')[-1].split('#')[0]
-    ev['lt'], ev['lk'], ev['lfr'] = t, k, fr
+    if ev.get('kind') == 'op' and ev.get('op') == 'rerun' and ev.get('target_sid'):
+        # (only a task of the root execution has a name the engine model knows)
+        ts = ev['target_sid']
+        t = ts.split('/')[-1].split('#')[0] if ts.count('/') == 1 else ''
+    ev['lt'], ev['lk'], ev['lfr'], ev['li'] = t, k, fr, li
     return ev
 
 
@@ -322,7 +382,7 @@ def _clean_ev(ev):
            'target': str(ev.get('target_sid', '')), 'arg': str(ev.get('arg', '')),
            'what': str(ev.get('method') or ev.get('op') or ev.get('func') or ev.get('kind')),
            'phase': str(ev.get('phase', '')), 'now': ev.get('now', 0), 'n': int(ev.get('n', 0) or 0), 'writes': ev.get('writes', []),
-           'exc_msg': ev.get('exc_msg', ''), 't': str(ev.get('lt', '')), 'k': int(ev.get('lk', 0) or 0), 'fr': bool(ev.get('lfr', True)),
+           'exc_msg': ev.get('exc_msg', ''), 't': str(ev.get('lt', '')), 'k': int(ev.get('lk', 0) or 0), 'fr': bool(ev.get('lfr', True)), 'i': int(ev.get('li', 0) or 0),
            'swallowed': list(ev.get('swallowed', []))}
     return out
 
